@@ -36,6 +36,14 @@ impl Conflict {
         }
     }
 
+    #[cfg(resolvo_verif)]
+    pub(crate) fn verif_clause_ids(&self) -> Vec<u32> {
+        self.clauses
+            .iter()
+            .map(|c| c.to_usize() as u32 + 1)
+            .collect()
+    }
+
     pub(crate) fn add_clause(&mut self, clause_id: ClauseId) {
         if !self.clauses.contains(&clause_id) {
             self.clauses.push(clause_id);
